@@ -23,6 +23,7 @@ EXPLANATION = (
     "writer and reader pack/unpack sub-byte samples with the same (stream) depth and bit order; (R7) requantisation clips to "
     "[0, 2^nbits - 1] before the cast. Not decided: "
     "bit-identity of values and metadata precision."
+    " Since wave 6: C08's rules for the DM recorded by to_file and carried by read_block are re-evaluated (R5)."
 )
 FILEIO = "sigpyproc.io.fileio"
 HEADER = "sigpyproc.header"
